@@ -94,6 +94,17 @@ class UserAddNode(ActionGroup):
 
         pred, succ = self.tracks.get_track_neighbors(track_id, time)
 
+        def check_position() -> None:
+            # AddNode refuses a node without position or segmentation: refuse it here,
+            # before the first edge is removed, so that a refused edit changes nothing
+            pos_key = tracks.features.position_key
+            if pixels is None and (
+                not all(key in attributes for key in pos_key)
+                if isinstance(pos_key, list)
+                else pos_key not in attributes
+            ):
+                raise ValueError(f"Must provide position or segmentation for node {node}")
+
         # check if you are adding a node to a track that divided previously
         if pred is not None and self.tracks.graph.out_degree(pred) == 2:
             if not force:
@@ -102,6 +113,7 @@ class UserAddNode(ActionGroup):
                     forceable=True,
                 )
             else:
+                check_position()
                 # Delete both conflicting edges in the upstream division.
                 succ_of_pred1, succ_of_pred2 = self.tracks.successors(pred)
                 self.actions.append(
@@ -126,6 +138,7 @@ class UserAddNode(ActionGroup):
                         forceable=True,
                     )
                 else:
+                    check_position()
                     # Delete the conflicting edge
                     self.actions.append(
                         UserDeleteEdge(tracks, (pred_of_succ, succ), _top_level=False)
@@ -145,6 +158,7 @@ class UserAddNode(ActionGroup):
                 attributes[lineage_key] = lineage_id
 
         # remove skip edge that will be replaced by new edges after adding nodes
+        check_position()
         if pred is not None and succ is not None:
             self.actions.append(DeleteEdge(tracks, (pred, succ)))
         # add predecessor and successor edges
